@@ -4,6 +4,7 @@ import (
 	"bytes"
 	"fmt"
 	"io"
+	"math"
 	"math/rand"
 	"sort"
 	"strings"
@@ -252,12 +253,44 @@ func runHistory(c *mon.Case, f *fileFixture, nReaders, steps int) {
 			case io.SeekEnd:
 				off = target - l
 			}
+			overflow := false
+			if r.Intn(12) == 0 {
+				// offsets at the ends of the int64 range, whatever the base
+				off = []int64{math.MinInt64, math.MinInt64 + 1, -math.MaxInt64 + 1, math.MaxInt64, math.MaxInt64 - 1}[r.Intn(5)]
+				base := []int64{0, m.pos, l}[whence]
+				if off > 0 && base > math.MaxInt64-off {
+					overflow = true
+				} else {
+					target = base + off
+				}
+				c.Count("extreme_seeks", 1)
+			}
 			hasSeek = true
 			var got int64
 			var err error
 			step := fmt.Sprintf("r%d.Seek(%d,%d)", ri, off, whence)
 			if !c.Guard(step, func() { got, err = rd.Seek(off, whence) }) {
 				return
+			}
+			if overflow {
+				// the position asked for does not fit an int64: only an error can be right
+				trace = append(trace, fmt.Sprintf("%s=(%d,%v)", step, got, err))
+				c.Count("steps", 1)
+				c.Count("seeks", 1)
+				if err == nil {
+					fail("C04|seek-overflow|no-error", "Seek(%d, whence %d) from position %d asks for a position beyond the int64 range but returned (%d, nil)", off, whence, m.pos, got)
+					return
+				}
+				var q int64
+				if !c.Guard("Seek(0,Current) after failed seek", func() { q, err = rd.Seek(0, io.SeekCurrent) }) {
+					return
+				}
+				if err != nil || q < 0 {
+					fail("C04|neg-seek|unusable", "after a rejected seek, Seek(0,Current) returned (%d, %v)", q, err)
+					return
+				}
+				m.pos = q
+				continue
 			}
 			trace = append(trace, fmt.Sprintf("%s=(%d,%v)", step, got, err))
 			c.Count("steps", 1)
